@@ -196,9 +196,9 @@ def run(ctx):
     def obs_lit(rows, tols):
         return "(Some %s)" % ll([ll([pl(q_lit(Q(x)), q_lit(t)) for x, t in zip(r, tr)]) for r, tr in zip(rows, tols)])
 
-    def plain_tols(rows, bounds):
-        n = len(bounds)
-        return [[tol_of(*bounds[j]) if j < n else Fraction(0) for j in range(len(r))] for r in rows]
+    def obs_cols_lit(rows, bounds):
+        """one tolerance per column (coordinates beyond the declared parameters get tolerance 0)"""
+        return "(obs_cols %s %s)" % (ll([q_lit(tol_of(*b)) for b in bounds]), ll([ll([q_lit(Q(x)) for x in r]) for r in rows]))
 
     def bs_lit(bounds):
         return ll([pl(q_lit(Q(a)), q_lit(Q(b))) for a, b in bounds])
@@ -294,7 +294,7 @@ def run(ctx):
             exp = "None"
             stats["raises"] += 1
         else:
-            exp = obs_lit(rows, plain_tols(rows, bounds))
+            exp = obs_cols_lit(rows, bounds)
             m["output_head"] = rows[:3]
         emit("lhs", "CLhs %s %s %s" % (nl(N), bs_lit(bounds), ll(ev)), exp, m, N, n,
              ("lhs", N, tuple(map(tuple, bounds)), seed, tuple(sorted(inject.items()))), N >= 2 and n >= 1)
@@ -386,7 +386,7 @@ def run(ctx):
             exp = "None"
             stats["raises"] += 1
         else:
-            exp = obs_lit(rows, plain_tols(rows, bounds))
+            exp = obs_cols_lit(rows, bounds)
             m["output_head"] = rows[:3]
         emit("halton", "CHalton %s %s" % (nl(N), bs_lit(bounds)), exp, m, N, n,
              ("halton", N, tuple(map(tuple, bounds))), N >= 1 and n >= 1)
@@ -428,7 +428,7 @@ def run(ctx):
             exp = "None"
             stats["raises"] += 1
         else:
-            exp = obs_lit(rows, plain_tols(rows, bounds))
+            exp = obs_cols_lit(rows, bounds)
             m["output_head"] = rows[:3]
         emit("grid", "CGrid %s %s" % (nl(k), bs_lit(bounds)), exp, m, k, n,
              ("grid", k, tuple(map(tuple, bounds))), k >= 2 and n >= 1)
@@ -732,7 +732,7 @@ def run(ctx):
                     for b in h["bounds"]:
                         bound_kinds["corpus"] = bound_kinds.get("corpus", 0) + 1
                     run_history(h, "corpus/%s#%d" % (fn, corpus_n))
-    n_hist = ctx.pick(110, 1500)
+    n_hist = ctx.pick(110, 1200)
     for hid in range(n_hist):
         run_history(gen_history(hid), hid)
 
